@@ -50,6 +50,10 @@ pub struct LoopContract {
     pub ensures: Vec<Clause>,
     pub decreases: Option<String>,
     pub proof_head: Option<String>,
+    /// `loop N ghost: <decls>` -- ghost declarations (proof_decl!) at the head of the loop body, in scope for the whole body
+    pub ghost_head: Option<String>,
+    /// `loop N proof_end: <text>` -- a proof block at the end of the loop body
+    pub proof_tail: Option<String>,
     /// `loop N match <text>`: the contract belongs to the loop whose body contains this token text (white space ignored), wherever
     /// it stands among the function's loops; N is then only a label. No such loop, or more than one => lost anchor
     pub match_text: Option<String>,
@@ -204,6 +208,8 @@ pub fn parse_contracts(src: &str) -> Result<Contracts, String> {
                     "binder" => lc.binder = Some(r.to_string()),
                     "decreases" => lc.decreases = Some(r.to_string()),
                     "proof" => lc.proof_head = Some(r.to_string()),
+                    "ghost:" => lc.ghost_head = Some(r.to_string()),
+                    "proof_end:" => lc.proof_tail = Some(r.to_string()),
                     "match" => lc.match_text = Some(r.split_whitespace().collect::<Vec<_>>().join("")),
                     other => return Err(format!("line {}: unknown loop directive `{}`", ln, other)),
                 }
